@@ -4,7 +4,10 @@
    one JSON string (UTF-8 + the ESCAPE table + parse_str); lines = BufRead::lines; write / read / sessions =
    Stats::write / Stats::read / append-mode sessions over an abstract record with serde as (ser, de);
    ge32 b = 32 <= b; line_ok l = no LF in l and l does not end in CR; terminated f = f empty or ends in LF. *)
-Require Import Base JsonEscape Stats Tables_statslog StatsProofs.
+From Coq Require Import String Ascii.
+From Coq Require Import List.
+Require Import Base JsonEscape Stats Tables_statslog StatsProofs C19Record C19RecordProofs Lexer C19LexerFinite C19TextRecords Tables_statsrecord C19Schema.
+From Coq Require Import ZArith.
 Local Open Scope N_scope.
 
 (* ---------- escaping ---------- *)
@@ -295,6 +298,283 @@ Proof. exact stats_source_shape_ok. Qed.
 Check C19_source_shape :
   forallb (fun e => snd e) stats_source_shape = true /\ length stats_source_shape = 11%nat.
 Print Assumptions C19_source_shape.
+
+
+(* ==================== phase 3: the concrete Record, the lexer, summarize over modelled records ==================== *)
+(* GOAL 1.  The concrete Record (Model/C19Record.v: Record / RecordKind / LintKind / LintGroupConfig / FatStringToken /
+   TokenKind / Punctuation / Number / WordMetadata as serde's derives print them, over JsonEscape's strings).
+   good r = r is a value of the Rust types (rust_value: Rust strings, integers in range, existing variants, BTreeMap keys
+   increasing, a hyphenated uuid) and every Number of its context is finite.  float_rt = the ONLY hypothesis: on a finite
+   float serde_json prints a non-empty text over [0-9+-.eE] and reads that text back as the same float.
+   Then the reader inverts the writer, and the line has no byte below 0x20 (no LF; does not end in CR) *)
+Theorem C19_record_value_roundtrip : forall (F : Type) (finite : F -> Prop) (print_f64 : F -> bytes) (parse_f64 : bytes -> option F),
+  float_rt F finite print_f64 parse_f64 ->
+  forall r : record F, good F finite print_f64 parse_f64 r ->
+  de_record F finite print_f64 parse_f64 (ser_record F finite print_f64 parse_f64 r) = Some r /\
+  Forall ge32 (ser_record F finite print_f64 parse_f64 r) /\ line_ok (ser_record F finite print_f64 parse_f64 r).
+Proof. exact record_value_roundtrip. Qed.
+Check C19_record_value_roundtrip : forall (F : Type) (finite : F -> Prop) (print_f64 : F -> bytes) (parse_f64 : bytes -> option F),
+  float_rt F finite print_f64 parse_f64 ->
+  forall r : record F, good F finite print_f64 parse_f64 r ->
+  de_record F finite print_f64 parse_f64 (ser_record F finite print_f64 parse_f64 r) = Some r /\
+  Forall ge32 (ser_record F finite print_f64 parse_f64 r) /\ line_ok (ser_record F finite print_f64 parse_f64 r).
+Print Assumptions C19_record_value_roundtrip.
+
+(* the log over the concrete Record: the `value` and `shape` contracts of C19_text_records_* are theorems now *)
+Theorem C19_record_log_roundtrip : forall (F : Type) (finite : F -> Prop) (print_f64 : F -> bytes) (parse_f64 : bytes -> option F),
+  float_rt F finite print_f64 parse_f64 ->
+  forall rs, Forall (good F finite print_f64 parse_f64) rs ->
+  read (record F) (de_record F finite print_f64 parse_f64) (write (record F) (ser_record F finite print_f64 parse_f64) rs) = Some rs.
+Proof. exact record_log_roundtrip. Qed.
+Check C19_record_log_roundtrip : forall (F : Type) (finite : F -> Prop) (print_f64 : F -> bytes) (parse_f64 : bytes -> option F),
+  float_rt F finite print_f64 parse_f64 ->
+  forall rs, Forall (good F finite print_f64 parse_f64) rs ->
+  read (record F) (de_record F finite print_f64 parse_f64) (write (record F) (ser_record F finite print_f64 parse_f64) rs) = Some rs.
+Print Assumptions C19_record_log_roundtrip.
+
+(* a second batch after a first *)
+Theorem C19_record_log_append : forall (F : Type) (finite : F -> Prop) (print_f64 : F -> bytes) (parse_f64 : bytes -> option F),
+  float_rt F finite print_f64 parse_f64 ->
+  forall a c, Forall (good F finite print_f64 parse_f64) a -> Forall (good F finite print_f64 parse_f64) c ->
+  read (record F) (de_record F finite print_f64 parse_f64)
+    (write (record F) (ser_record F finite print_f64 parse_f64) a ++ write (record F) (ser_record F finite print_f64 parse_f64) c) = Some (a ++ c).
+Proof. exact record_log_append. Qed.
+Check C19_record_log_append : forall (F : Type) (finite : F -> Prop) (print_f64 : F -> bytes) (parse_f64 : bytes -> option F),
+  float_rt F finite print_f64 parse_f64 ->
+  forall a c, Forall (good F finite print_f64 parse_f64) a -> Forall (good F finite print_f64 parse_f64) c ->
+  read (record F) (de_record F finite print_f64 parse_f64)
+    (write (record F) (ser_record F finite print_f64 parse_f64) a ++ write (record F) (ser_record F finite print_f64 parse_f64) c) = Some (a ++ c).
+Print Assumptions C19_record_log_append.
+
+(* any number of append sessions onto any well-terminated log that reads back as `old` *)
+Theorem C19_record_log_sessions : forall (F : Type) (finite : F -> Prop) (print_f64 : F -> bytes) (parse_f64 : bytes -> option F),
+  float_rt F finite print_f64 parse_f64 ->
+  forall file old ss, terminated file -> read (record F) (de_record F finite print_f64 parse_f64) file = Some old ->
+  Forall (Forall (good F finite print_f64 parse_f64)) ss ->
+  read (record F) (de_record F finite print_f64 parse_f64) (sessions (record F) (ser_record F finite print_f64 parse_f64) file ss) = Some (old ++ concat ss).
+Proof. exact record_log_sessions. Qed.
+Check C19_record_log_sessions : forall (F : Type) (finite : F -> Prop) (print_f64 : F -> bytes) (parse_f64 : bytes -> option F),
+  float_rt F finite print_f64 parse_f64 ->
+  forall file old ss, terminated file -> read (record F) (de_record F finite print_f64 parse_f64) file = Some old ->
+  Forall (Forall (good F finite print_f64 parse_f64)) ss ->
+  read (record F) (de_record F finite print_f64 parse_f64) (sessions (record F) (ser_record F finite print_f64 parse_f64) file ss) = Some (old ++ concat ss).
+Print Assumptions C19_record_log_sessions.
+
+(* GOAL 2.  The `lexer` contract as a theorem about C02's Model/Lexer.v.  kind_finite k = if k is a Number, the correctly
+   rounded f64 of its exact value is finite (Lexer.f64_finite, meaning: C02_f64_finite_spec) *)
+Theorem C19_lex_number_finite : forall u src n k, lex_number u src = Some (n, k) -> kind_finite k.
+Proof. exact lex_number_finite. Qed.
+Check C19_lex_number_finite : forall u src n k, lex_number u src = Some (n, k) -> kind_finite k.
+Print Assumptions C19_lex_number_finite.
+
+(* a hex literal is a u64: below 2^64 < 2^1024 - 2^970 *)
+Theorem C19_lex_hex_number_finite : forall u src n k, lex_hex_number u src = Some (n, k) -> kind_finite k.
+Proof. exact lex_hex_number_finite. Qed.
+Check C19_lex_hex_number_finite : forall u src n k, lex_hex_number u src = Some (n, k) -> kind_finite k.
+Print Assumptions C19_lex_hex_number_finite.
+
+(* PlainEnglish::parse as a whole (lex_token: no other sub-lexer makes a Number): every token, for every text and every Unicode table *)
+Theorem C19_plain_parse_finite : forall u s ts, plain_parse u s = Ok ts -> Forall token_finite ts.
+Proof. exact plain_parse_finite. Qed.
+Check C19_plain_parse_finite : forall u s ts, plain_parse u s = Ok ts -> Forall token_finite ts.
+Print Assumptions C19_plain_parse_finite.
+
+(* THE PROPERTY for records made from text, with one hypothesis left.  A float is the exact value the modelled lexer gives a
+   literal; text_record r = r is a value of the Rust types whose Number values are values of Number tokens of
+   PlainEnglish::parse of some text (made_from_text).  `lexer`, `value`, `shape` of C19_text_records_* are discharged *)
+Theorem C19_text_log_roundtrip : forall (u : uni) (print_f64 : lexval -> bytes) (parse_f64 : bytes -> option lexval),
+  float_rt lexval lexval_finite print_f64 parse_f64 ->
+  forall rs, Forall (text_record u print_f64 parse_f64) rs ->
+  read (record lexval) (de_record lexval lexval_finite print_f64 parse_f64)
+    (write (record lexval) (ser_record lexval lexval_finite print_f64 parse_f64) rs) = Some rs.
+Proof. exact text_log_roundtrip. Qed.
+Check C19_text_log_roundtrip : forall (u : uni) (print_f64 : lexval -> bytes) (parse_f64 : bytes -> option lexval),
+  float_rt lexval lexval_finite print_f64 parse_f64 ->
+  forall rs, Forall (text_record u print_f64 parse_f64) rs ->
+  read (record lexval) (de_record lexval lexval_finite print_f64 parse_f64)
+    (write (record lexval) (ser_record lexval lexval_finite print_f64 parse_f64) rs) = Some rs.
+Print Assumptions C19_text_log_roundtrip.
+
+(* writing a second batch after a first yields their concatenation *)
+Theorem C19_text_log_append : forall (u : uni) (print_f64 : lexval -> bytes) (parse_f64 : bytes -> option lexval),
+  float_rt lexval lexval_finite print_f64 parse_f64 ->
+  forall a c, Forall (text_record u print_f64 parse_f64) a -> Forall (text_record u print_f64 parse_f64) c ->
+  read (record lexval) (de_record lexval lexval_finite print_f64 parse_f64)
+    (write (record lexval) (ser_record lexval lexval_finite print_f64 parse_f64) a ++
+     write (record lexval) (ser_record lexval lexval_finite print_f64 parse_f64) c) = Some (a ++ c).
+Proof. exact text_log_append. Qed.
+Check C19_text_log_append : forall (u : uni) (print_f64 : lexval -> bytes) (parse_f64 : bytes -> option lexval),
+  float_rt lexval lexval_finite print_f64 parse_f64 ->
+  forall a c, Forall (text_record u print_f64 parse_f64) a -> Forall (text_record u print_f64 parse_f64) c ->
+  read (record lexval) (de_record lexval lexval_finite print_f64 parse_f64)
+    (write (record lexval) (ser_record lexval lexval_finite print_f64 parse_f64) a ++
+     write (record lexval) (ser_record lexval lexval_finite print_f64 parse_f64) c) = Some (a ++ c).
+Print Assumptions C19_text_log_append.
+
+(* append after append *)
+Theorem C19_text_log_sessions : forall (u : uni) (print_f64 : lexval -> bytes) (parse_f64 : bytes -> option lexval),
+  float_rt lexval lexval_finite print_f64 parse_f64 ->
+  forall file old ss, terminated file -> read (record lexval) (de_record lexval lexval_finite print_f64 parse_f64) file = Some old ->
+  Forall (Forall (text_record u print_f64 parse_f64)) ss ->
+  read (record lexval) (de_record lexval lexval_finite print_f64 parse_f64)
+    (sessions (record lexval) (ser_record lexval lexval_finite print_f64 parse_f64) file ss) = Some (old ++ concat ss).
+Proof. exact text_log_sessions. Qed.
+Check C19_text_log_sessions : forall (u : uni) (print_f64 : lexval -> bytes) (parse_f64 : bytes -> option lexval),
+  float_rt lexval lexval_finite print_f64 parse_f64 ->
+  forall file old ss, terminated file -> read (record lexval) (de_record lexval lexval_finite print_f64 parse_f64) file = Some old ->
+  Forall (Forall (text_record u print_f64 parse_f64)) ss ->
+  read (record lexval) (de_record lexval lexval_finite print_f64 parse_f64)
+    (sessions (record lexval) (ser_record lexval lexval_finite print_f64 parse_f64) file ss) = Some (old ++ concat ss).
+Print Assumptions C19_text_log_sessions.
+
+(* GOAL 3.  summarize over the modelled records (summary_of rs = Stats::summarize on what rkind_of extracts from each Record;
+   lint_kinds rs = the kinds of the Lint records in order).  Each applied lint is counted exactly once: the count of a kind
+   is its multiplicity, the total is the number of Lint records = the sum of the counts, one entry per kind *)
+Theorem C19_summary_counts : forall (F : Type) (rs : list (record F)) (k : nat),
+  get_count nat Nat.eqb config (summary_of F rs) k = count_occ Nat.eq_dec (lint_kinds F rs) k /\
+  total_applied _ _ (summary_of F rs) = length (lint_kinds F rs) /\
+  count_sum (lint_counts _ _ (summary_of F rs)) = length (lint_kinds F rs) /\
+  NoDup (map fst (lint_counts _ _ (summary_of F rs))).
+Proof. exact summary_counts. Qed.
+Check C19_summary_counts : forall (F : Type) (rs : list (record F)) (k : nat),
+  get_count nat Nat.eqb config (summary_of F rs) k = count_occ Nat.eq_dec (lint_kinds F rs) k /\
+  total_applied _ _ (summary_of F rs) = length (lint_kinds F rs) /\
+  count_sum (lint_counts _ _ (summary_of F rs)) = length (lint_kinds F rs) /\
+  NoDup (map fst (lint_counts _ _ (summary_of F rs))).
+Print Assumptions C19_summary_counts.
+
+(* concatenated batches: the counts add up (multiset union) *)
+Theorem C19_summary_counts_app : forall (F : Type) (a c : list (record F)) (k : nat),
+  get_count nat Nat.eqb config (summary_of F (a ++ c)) k =
+    (get_count nat Nat.eqb config (summary_of F a) k + get_count nat Nat.eqb config (summary_of F c) k)%nat /\
+  total_applied _ _ (summary_of F (a ++ c)) = (total_applied _ _ (summary_of F a) + total_applied _ _ (summary_of F c))%nat.
+Proof. exact summary_counts_app. Qed.
+Check C19_summary_counts_app : forall (F : Type) (a c : list (record F)) (k : nat),
+  get_count nat Nat.eqb config (summary_of F (a ++ c)) k =
+    (get_count nat Nat.eqb config (summary_of F a) k + get_count nat Nat.eqb config (summary_of F c) k)%nat /\
+  total_applied _ _ (summary_of F (a ++ c)) = (total_applied _ _ (summary_of F a) + total_applied _ _ (summary_of F c))%nat.
+Print Assumptions C19_summary_counts_app.
+
+(* the whole path: sessions appended to a log, read back, summarised — every lint applied in any session counted once *)
+Theorem C19_summary_of_log : forall (F : Type) (finite : F -> Prop) (print_f64 : F -> bytes) (parse_f64 : bytes -> option F),
+  float_rt F finite print_f64 parse_f64 ->
+  forall file old ss, terminated file -> read (record F) (de_record F finite print_f64 parse_f64) file = Some old ->
+  Forall (Forall (good F finite print_f64 parse_f64)) ss ->
+  exists rs, read (record F) (de_record F finite print_f64 parse_f64) (sessions (record F) (ser_record F finite print_f64 parse_f64) file ss) = Some rs /\
+    rs = old ++ concat ss /\
+    forall k, get_count nat Nat.eqb config (summary_of F rs) k =
+              (count_occ Nat.eq_dec (lint_kinds F old) k + count_occ Nat.eq_dec (lint_kinds F (concat ss)) k)%nat.
+Proof. exact summary_of_log. Qed.
+Check C19_summary_of_log : forall (F : Type) (finite : F -> Prop) (print_f64 : F -> bytes) (parse_f64 : bytes -> option F),
+  float_rt F finite print_f64 parse_f64 ->
+  forall file old ss, terminated file -> read (record F) (de_record F finite print_f64 parse_f64) file = Some old ->
+  Forall (Forall (good F finite print_f64 parse_f64)) ss ->
+  exists rs, read (record F) (de_record F finite print_f64 parse_f64) (sessions (record F) (ser_record F finite print_f64 parse_f64) file ss) = Some rs /\
+    rs = old ++ concat ss /\
+    forall k, get_count nat Nat.eqb config (summary_of F rs) k =
+              (count_occ Nat.eq_dec (lint_kinds F old) k + count_occ Nat.eq_dec (lint_kinds F (concat ss)) k)%nat.
+Print Assumptions C19_summary_of_log.
+
+(* ---------- the model of the Record is the one the sources describe (regenerated from /repo on every run) ---------- *)
+Section SchemaStatements.
+Local Open Scope string_scope.
+Local Open Scope list_scope.
+(* every type behind a Record: struct / enum, container #[serde(..)] attributes, members in order with types / payloads and their attributes — as re-read by tools/tables/statsrecord.py — are what Model/C19Record.v was written against *)
+Theorem C19_record_schema_is_sources :
+  src_types = modelled_types.
+Proof. exact schema_is_sources. Qed.
+Check C19_record_schema_is_sources :
+  src_types = modelled_types.
+Print Assumptions C19_record_schema_is_sources.
+(* the model's tables of variant names = the unit variants of the source enums in declaration order; the data-carrying variants and the tag attributes are the ones the model handles *)
+Theorem C19_name_tables_are_sources :
+  unit_variants "LintKind" = lintkind_names /\ unit_variants "NumberSuffix" = suffix_names /\
+  unit_variants "Dialect" = dialect_names /\ unit_variants "Person" = person_names /\ unit_variants "Case" = case_names /\
+  unit_variants "Degree" = degree_names /\ unit_variants "Currency" = currency_names /\
+  unit_variants "Punctuation" = punct_unit_names /\ unit_variants "TokenKind" = tk_unit_names /\
+  unit_variants "Tense" = [] /\
+  (* every variant of those enums is a unit variant, except: *)
+  map fst (filter (fun e => negb (String.eqb (snd e) "|")) (members_of "Punctuation" src_types)) = ["Quote"; "Currency"] /\
+  map fst (filter (fun e => negb (String.eqb (snd e) "|")) (members_of "TokenKind" src_types)) = ["Word"; "Punctuation"; "Number"; "Space"; "Newline"] /\
+  map fst (members_of "RecordKind" src_types) = ["Lint"; "LintConfigUpdate"] /\
+  head_of "TokenKind" src_types = "enum|serde(tag=""kind"",content=""value"")" /\
+  head_of "Punctuation" src_types = "enum|serde(tag=""kind"")" /\
+  head_of "RecordKind" src_types = "enum|" /\ head_of "LintGroupConfig" src_types = "struct|serde(transparent)".
+Proof. exact name_tables_are_sources. Qed.
+Check C19_name_tables_are_sources :
+  unit_variants "LintKind" = lintkind_names /\ unit_variants "NumberSuffix" = suffix_names /\
+  unit_variants "Dialect" = dialect_names /\ unit_variants "Person" = person_names /\ unit_variants "Case" = case_names /\
+  unit_variants "Degree" = degree_names /\ unit_variants "Currency" = currency_names /\
+  unit_variants "Punctuation" = punct_unit_names /\ unit_variants "TokenKind" = tk_unit_names /\
+  unit_variants "Tense" = [] /\
+  (* every variant of those enums is a unit variant, except: *)
+  map fst (filter (fun e => negb (String.eqb (snd e) "|")) (members_of "Punctuation" src_types)) = ["Quote"; "Currency"] /\
+  map fst (filter (fun e => negb (String.eqb (snd e) "|")) (members_of "TokenKind" src_types)) = ["Word"; "Punctuation"; "Number"; "Space"; "Newline"] /\
+  map fst (members_of "RecordKind" src_types) = ["Lint"; "LintConfigUpdate"] /\
+  head_of "TokenKind" src_types = "enum|serde(tag=""kind"",content=""value"")" /\
+  head_of "Punctuation" src_types = "enum|serde(tag=""kind"")" /\
+  head_of "RecordKind" src_types = "enum|" /\ head_of "LintGroupConfig" src_types = "struct|serde(transparent)".
+Print Assumptions C19_name_tables_are_sources.
+(* the member names the model's writer emits for each struct = the field names of the source, in order *)
+Theorem C19_struct_members_are_sources :
+  enc c_noun (None, (None, None)) = obj (field_names "NounData") [nul; nul; nul] /\
+  enc c_pronoun (None, (None, (None, None))) = obj (field_names "PronounData") [nul; nul; nul; nul] /\
+  enc c_verb (None, (None, tt)) = obj (field_names "VerbData") [nul; nul; nul] /\
+  enc c_adj None = obj (field_names "AdjectiveData") [nul] /\
+  enc c_empty_struct tt = obj (field_names "AdverbData") [] /\ enc c_empty_struct tt = obj (field_names "ConjunctionData") [] /\
+  enc c_wordid 7%N = obj (field_names "WordId") [jb "7"] /\
+  enc c_wordmeta (None, (None, (None, (None, (None, (None, (None, (None, (false, (false, (false, None)))))))))))
+    = obj (field_names "WordMetadata") [nul; nul; nul; nul; nul; nul; nul; nul; jb "false"; jb "false"; jb "false"; nul] /\
+  enc (c_number bytes drv_finite (fun t => t) (fun t => Some t)) (jb "1.5", (None, (10%N, 2%N)))
+    = obj (field_names "Number") [jb "1.5"; nul; jb "10"; jb "2"] /\
+  (* Quote inside the internally tagged Punctuation: the tag first, then Quote's own fields *)
+  enc c_punct (PQuote None) = obj ("kind" :: field_names "Quote") [jb """Quote"""; nul] /\
+  enc (c_fattoken bytes drv_finite (fun t => t) (fun t => Some t)) ([]%list, TKUnit bytes 0)
+    = obj (field_names "FatStringToken") [jb """"""; jb "{""kind"":""Decade""}"] /\
+  (* the two members of RecordKind::Lint *)
+  members_of "RecordKind" src_types = [("Lint", "{kind:LintKind,context:Vec<FatStringToken>,}|"); ("LintConfigUpdate", "(LintGroupConfig)|")] /\
+  enc (c_rk_lint bytes drv_finite (fun t => t) (fun t => Some t)) (0%nat, []%list)
+    = jb "{""Lint"":" ++ obj ["kind"; "context"] [jb """Spelling"""; jb "[]"] ++ jb "}" /\
+  enc (c_record bytes drv_finite (fun t => t) (fun t => Some t)) (RKConfig bytes []%list, (0%Z, []%list))
+    = obj (field_names "Record") [jb "{""LintConfigUpdate"":{}}"; jb "0"; jb """"""].
+Proof. exact struct_members_are_sources. Qed.
+Check C19_struct_members_are_sources :
+  enc c_noun (None, (None, None)) = obj (field_names "NounData") [nul; nul; nul] /\
+  enc c_pronoun (None, (None, (None, None))) = obj (field_names "PronounData") [nul; nul; nul; nul] /\
+  enc c_verb (None, (None, tt)) = obj (field_names "VerbData") [nul; nul; nul] /\
+  enc c_adj None = obj (field_names "AdjectiveData") [nul] /\
+  enc c_empty_struct tt = obj (field_names "AdverbData") [] /\ enc c_empty_struct tt = obj (field_names "ConjunctionData") [] /\
+  enc c_wordid 7%N = obj (field_names "WordId") [jb "7"] /\
+  enc c_wordmeta (None, (None, (None, (None, (None, (None, (None, (None, (false, (false, (false, None)))))))))))
+    = obj (field_names "WordMetadata") [nul; nul; nul; nul; nul; nul; nul; nul; jb "false"; jb "false"; jb "false"; nul] /\
+  enc (c_number bytes drv_finite (fun t => t) (fun t => Some t)) (jb "1.5", (None, (10%N, 2%N)))
+    = obj (field_names "Number") [jb "1.5"; nul; jb "10"; jb "2"] /\
+  (* Quote inside the internally tagged Punctuation: the tag first, then Quote's own fields *)
+  enc c_punct (PQuote None) = obj ("kind" :: field_names "Quote") [jb """Quote"""; nul] /\
+  enc (c_fattoken bytes drv_finite (fun t => t) (fun t => Some t)) ([]%list, TKUnit bytes 0)
+    = obj (field_names "FatStringToken") [jb """"""; jb "{""kind"":""Decade""}"] /\
+  (* the two members of RecordKind::Lint *)
+  members_of "RecordKind" src_types = [("Lint", "{kind:LintKind,context:Vec<FatStringToken>,}|"); ("LintConfigUpdate", "(LintGroupConfig)|")] /\
+  enc (c_rk_lint bytes drv_finite (fun t => t) (fun t => Some t)) (0%nat, []%list)
+    = jb "{""Lint"":" ++ obj ["kind"; "context"] [jb """Spelling"""; jb "[]"] ++ jb "}" /\
+  enc (c_record bytes drv_finite (fun t => t) (fun t => Some t)) (RKConfig bytes []%list, (0%Z, []%list))
+    = obj (field_names "Record") [jb "{""LintConfigUpdate"":{}}"; jb "0"; jb """"""].
+Print Assumptions C19_struct_members_are_sources.
+End SchemaStatements.
+
+(* non-vacuity of the new theorems (proved in the proof files by vm_compute): the model prints the two records below exactly
+   as harper-stats does (ex_lint_line / ex_cfg_line spell the real lines out), reads them back, two sessions, a count *)
+Example C19_record_nonvacuous :
+  float_rt bytes txt_finite (fun t => t) (fun t => Some t) /\
+  good bytes txt_finite (fun t => t) (fun t => Some t) ex_lint /\ good bytes txt_finite (fun t => t) (fun t => Some t) ex_cfg /\
+  drv_de (drv_ser ex_lint) = Some ex_lint /\ drv_de (drv_ser ex_cfg) = Some ex_cfg /\ ~ In 10 (drv_ser ex_lint) /\
+  read (record bytes) drv_de (sessions (record bytes) drv_ser [] [[ex_cfg; ex_lint]; [ex_lint]]) = Some [ex_cfg; ex_lint; ex_lint] /\
+  get_count nat Nat.eqb config (summary_of bytes [ex_cfg; ex_lint; ex_lint]) 0%nat = 2%nat.
+Proof. exact (conj txt_float_rt (conj (proj1 ex_good) (conj (proj2 ex_good) record_examples))). Qed.
+Example C19_lexer_nonvacuous :
+  made_from_text ascii_digits_uni ex_text_record /\ Forall lexval_finite (numbers lexval ex_text_record) /\
+  ~ lexval_finite (false, 1%N, 999%Z).
+Proof. exact made_from_text_example. Qed.
 
 (* ---------- non-vacuity ---------- *)
 (* the hypotheses of the contract theorems are satisfiable on a non-trivial instance: C19_strings_log IS
